@@ -96,3 +96,38 @@ def dpkg_cmp(a, b):
     if t('gt'):
         return 1
     return 0
+
+
+def pickled_to_another_process(ctx, sample):
+    """versions hashed here, pickled, and loaded by an interpreter with another hash seed: equal to and hashing like the
+    versions parsed there from the same string and from their own printed form, found in its sets and dictionaries.
+    Returns a list of (input, why)."""
+    import os
+    import pickle
+    import subprocess
+    import sys
+    from debian_inspector.version import Version
+    fails = []
+    objs = [Version.from_string(x) for x in sample]
+    _ = [hash(o) for o in objs], {o: 1 for o in objs}, sorted(objs), [str(o) for o in objs]
+    pk = os.path.join(ctx.scratch, 'versions.pickle')
+    with open(pk, 'wb') as f:
+        pickle.dump((sample, objs), f)
+    code = ('import pickle,sys\nfrom debian_inspector.version import Version\nsample, objs = pickle.load(open(sys.argv[1], "rb"))\n'
+            'for s, o in zip(sample, objs):\n    v = Version.from_string(s)\n    w = Version.from_string(str(o))\n'
+            '    ok = (o == v) and (o == w) and hash(o) == hash(v) and o in {v} and v in {o} and {o: 1}.get(v) == 1 and {w: 1}.get(o) == 1 and o.compare(v) == 0 and str(o) == str(v)\n'
+            '    if not ok:\n        print(s)\n        break\n')
+    env = dict(os.environ)
+    env['PYTHONHASHSEED'] = '99'
+    from harness import common as _c
+    env['PYTHONPATH'] = os.path.join(_c.REPO, 'src')
+    r = subprocess.run([sys.executable, '-c', code, pk], env=env, stdout=subprocess.PIPE, stderr=subprocess.PIPE, text=True, timeout=600)
+    st = ctx.stream('prop:pickled-to-another-process')
+    st['cases'] = len(sample)
+    os.unlink(pk)
+    if r.returncode != 0:
+        fails.append((sample[:3], 'loading pickled versions in another interpreter raises: ' + r.stderr.strip()[-300:]))
+    elif r.stdout.strip():
+        st['prop_failures'] = 1
+        fails.append((r.stdout.strip(), 'a version hashed, pickled and loaded by an interpreter with another hash seed is not equal to, or does not hash like, the same version parsed there (from the string or from its printed form)'))
+    return fails
